@@ -44,6 +44,8 @@ HANDWRITTEN = [
     ('addr-deref-string', 'char *p = &*"abc"; int a[3]; int *q = &*a; char c = *"x";\n'), ('struct-condition', 'struct s { int a; } x; int f(void) { return x ? 1 : 2; }\n'),
     ('for-missing-semicolon', 'void f(void) { int i; for (i = 0 i < 3; ) ; }\n'), ('for-missing-semicolon2', 'void f(void) { for (int i = 0; i < 3 i++) ; }\n'),
     ('struct-incdec', 'struct s { int a; } x; void f(void) { x++; }\n'), ('void-cast-int', 'int f(void) { return (int)(void)0; }\n'),
+    ('undef-inside-own-call', '#define F(x) x + x\nint a = F(\n#undef F\n1);\n#define G(x) x\nint b = G(\n#undef G\n#define G(y) y y\n2) G(3);\n'),
+    ('define-inside-call', '#define H(x) x\nint c = H(\n#define H(x) x x\n4);\n'),
     ('rem-overflow', 'long z = (-0x7fffffffffffffff-1) % -1;\n'), ('rem-overflow-case', 'int f(long v){ switch (v) { case (-0x7fffffffffffffffLL-1) % -1: return 1; } return 0; }\n'),
     ('rem-overflow-int', 'int z = (-0x7fffffff-1) % -1; int w = (-0x7fffffff-1) / -1; enum { E = (-0x7fffffffffffffffLL-1) % -1LL };\n'),
     ('backslash-nul-string', b'char *s = "a\\\x00b";\n'), ('backslash-nul-char', b"int c = '\\\x00';\n"), ('backslash-nul-E', b'#define S(x) #x\nchar *s = S("\\\x00");\n'),
